@@ -926,7 +926,7 @@ for _v in VALIDATORS:
 AIC = "nsl.passes.AddImplicitCasts::AddImplicitCastVisitor"
 
 
-@family("CASTS.visit", props=["C03", "C05", "C09"], functions=[AIC + ".v_CallExpression", AIC + ".v_ConstructPrimitiveExpression", AIC + ".v_BinaryExpression", AIC + ".v_ArrayExpression", AIC + "._GetTargetType"],
+@family("CASTS.visit", props=["C03", "C05", "C09", "C01", "C04"], functions=[AIC + ".v_CallExpression", AIC + ".v_ConstructPrimitiveExpression", AIC + ".v_BinaryExpression", AIC + ".v_ArrayExpression", AIC + "._GetTargetType"],
         assumptions=["induction on tree height with opaque (typed) children; argument / parameter types enumerated over int, float, uint, float2, int2, float4, int4"])
 def casts_visit(R):
     """The cast pass visits every child of every node class exactly once (so casts are also inserted in calls nested in arguments, constructor
@@ -964,6 +964,32 @@ def casts_visit(R):
             det = f"visited {[getattr(x, 'tag', '?') for x, _ in step.visits]} of {[getattr(k, 'tag', type(k).__name__) for k in kids]}; raised={step.raised!r}"
         except Exception as e:
             ok, det = False, f"harness: {type(e).__name__}: {e}"
+        # the same with operands that DO get a cast: a child that is wrapped in a cast must still be visited (the expression below it
+        # needs its own casts)
+        variants = []
+        if kind == "ConstructPrimitiveExpression":
+            variants = [("int-args", lambda: a.ConstructPrimitiveExpression(ty.VectorType(F, 2), [ag.E("e0", I), ag.E("e1", I)])),
+                        ("mixed-args", lambda: a.ConstructPrimitiveExpression(ty.VectorType(F, 3), [ag.E("e0", ty.VectorType(I, 2)), ag.E("e1", F)]))]
+        elif kind == "CallExpression" and len(node.GetArguments()) == 2:
+            variants = [("converted-args", lambda: a.CallExpression(make_function("h", [F, F]), [ag.E("e0", I), ag.E("e1", F)]))]
+        elif kind == "BinaryExpression":
+            def mixed(lt, rt):
+                n = a.BinaryExpression(op.Operation.ADD, ag.E("l", lt), ag.E("r", rt))
+                n.ResolveType(lt, rt)
+                return n
+            variants = [("int+float", lambda: mixed(I, F)), ("float+int", lambda: mixed(F, I)), ("uint+int", lambda: mixed(U, I))]
+        elif kind == "ArrayExpression":
+            variants = [("uint-index", lambda: a.ArrayExpression(ag.E("p", ty.ArrayType(I, [4])), ag.E("i", U)))]
+        for vl, mkv in variants:
+            n2 = mkv()
+            kids2 = ag.children_of(n2)
+            try:
+                st2 = ag.visitor_step(cls(), n2, None)
+                ok2 = st2.raised is None and sorted(id(x) for x, _ in st2.visits) == sorted(id(k) for k in kids2)
+                det2 = f"visited {[getattr(x, 'tag', '?') for x, _ in st2.visits]} of {[getattr(k, 'tag', type(k).__name__) for k in kids2]}; raised={st2.raised!r}"
+            except Exception as e:
+                ok2, det2 = False, f"harness: {type(e).__name__}: {e}"
+            R.check(f"CASTS.reach[{label},{vl}]", AIC, ok2, detail=f"{kind}: {det2} (an operand that is wrapped in a cast must still be visited)")
         R.check(f"CASTS.reach[{label}]", AIC, ok, detail=f"{kind}: {det} (an expression nested below is never given its casts)",
                 replay=script("""
                     import io, contextlib
